@@ -23,7 +23,9 @@ func init() {
 			"what the header type's own Verify method computes (abstract invoke on the type parameter)",
 			"the value read from the wall clock",
 		},
-		Run: runC01,
+		Technique: "guard-table dominance with assumption pruning + return-shape classification on SSA (all paths of two loop-free generic functions)",
+		Trusted:   "go/types+go/ssa (x/tools v0.29.0); purity/immutability of header observers; time.Now treated as an opaque read",
+		Run:       runC01,
 	})
 }
 
